@@ -243,7 +243,7 @@ Proof.
   set (kw := filter (fun cv : nat * val => is_col (fst cv)) (as_dict kvs)) in *.
   unfold bind at 1. destruct (is_lazy (i_k i) && existsb _ kvs); [exact Hs|]. unfold ret at 1.
   unfold bind at 1. destruct (validate_all_run kw s) as [Ev|Ev]; rewrite Ev; [|exact Hs].
-  unfold bind at 1. destruct (existsb _ kvs); [exact Hs|]. unfold ret at 1.
+  unfold bind at 1. destruct (run_extras (as_dict kvs)); [exact Hs|]. unfold ret at 1.
   destruct (is_lazy (i_k i)) eqn:Hl.
   - unfold upd_inst, modify. apply H16_upd; [exact Hs|intros Hi]. apply P16_set_lazy; auto.
     + intros Hne. destruct kw; [congruence|reflexivity].
